@@ -206,6 +206,14 @@ func genWork(rng *rand.Rand, tier, prop string) *WorkPlan {
 		it.Done = 1 + rng.IntN(3)
 		p.Items = append(p.Items, it)
 	}
+	if (prop == "C05" || prop == "C01") && rng.IntN(4) == 0 {
+		// work that returns in the very moment the stop begins (same duration as the client's settle time)
+		for i := range p.Items {
+			if rng.IntN(2) == 0 && p.Items[i].Kind != "hook" {
+				p.Items[i].Dur, p.Items[i].AtStart = p.Settle, false
+			}
+		}
+	}
 	if prop == "C05" && p.Mgmt && rng.IntN(4) == 0 {
 		p.Mods[rng.IntN(len(p.Mods))].StartFail = true
 	}
